@@ -30,12 +30,12 @@ for _e in ("us", "jp", "es", "ie", "generic"):
 import rp2.rp2_main as MAIN
 
 LAY = {"IN": {"timestamp": 0, "asset": 6, "exchange": 1, "holder": 2, "transaction_type": 5, "spot_price": 8, "crypto_in": 7, "crypto_fee": 13, "fiat_fee": 11,
-              "fiat_in_no_fee": 9, "fiat_in_with_fee": 10, "notes": 12},
+              "fiat_in_no_fee": 9, "fiat_in_with_fee": 10, "notes": 12, "unique_id": 14},
        "OUT": {"timestamp": 0, "asset": 6, "exchange": 1, "holder": 2, "transaction_type": 5, "spot_price": 8, "crypto_out_no_fee": 7, "crypto_fee": 9,
-               "crypto_out_with_fee": 10, "fiat_out_no_fee": 11, "fiat_fee": 13, "notes": 12},
+               "crypto_out_with_fee": 10, "fiat_out_no_fee": 11, "fiat_fee": 13, "notes": 12, "unique_id": 14},
        "INTRA": {"timestamp": 0, "asset": 6, "from_exchange": 1, "from_holder": 2, "to_exchange": 3, "to_holder": 4, "spot_price": 8, "crypto_sent": 7,
-                 "crypto_received": 10, "notes": 12}}
-W = 14
+                 "crypto_received": 10, "notes": 12, "unique_id": 14}}
+W = 15
 EXS = sorted({a[0] for a in ACCTS})
 HOS = sorted({a[1] for a in ACCTS}, reverse=True)
 ALL_ASSETS = ["B1", "B2", "B3"]
@@ -70,6 +70,9 @@ def grid(asset, rows, cfee):
             row = [None] * W
             row[m["timestamp"]] = P.ts_of(r[2], r[3])
             row[m["asset"]] = asset
+            # a transaction identifier derived from the second of the timestamp: rows of the same second — within a table and across
+            # tables (an acquisition and the fee or sale booked with it) — share it, as they do in exchange exports
+            row[m["unique_id"]] = "0x%x" % (r[2] // 10**6 % 0xfffff)
             if t == "IN":
                 row[m["exchange"]], row[m["holder"]] = ACCTS[r[5]]
                 row[m["transaction_type"]] = r[4]
@@ -119,23 +122,56 @@ def effective_rows(rows):
     return out
 
 
+_MATRIX = {"k": 0}
+
+
+def matrix():
+    """every (entry point, language option) pair: no language (the country's default) and each language the country ships templates for"""
+    return [(e, l) for e in ("us", "jp", "es", "ie", "generic") for l in [None] + country_facts(e)["langs"]]
+
+
 def gen(rng, prop=None):
     entry = rng.choice(["us", "us", "jp", "es", "ie", "generic"]) if prop != "C20" else "jp"
+    forced_lang = False
+    if prop == "C16" and rng.random() < 0.6:
+        # C16 quantifies over the full country x language matrix: walk through it instead of sampling it
+        mx = matrix()
+        entry, forced = mx[_MATRIX["k"] % len(mx)]
+        _MATRIX["k"] += 1
+        forced_lang = True
     facts = country_facts(entry)
     n_assets = rng.randint(1, 3) if prop != "C17" else rng.randint(2, 3)
     assets = {}
     cfee = {}
     days = []
+    # C17: sometimes nearly every acquisition pays its fee in crypto, so that the run-wide counter of artificial ids (-1, -2, …) passes
+    # -9 / -10 inside a later asset: an asset's results must not depend on how many ids earlier assets used up
+    heavy_cfee = prop == "C17" and rng.random() < 0.35
     for a in ALL_ASSETS[:n_assets]:
         c = P.gen(rng, "reports")
         rows = [r for r in c["rows"] if not (r[0] == "OUT" and r[9] is not None and r[9] != r[7] + r[8])]
+        if heavy_cfee and a == ALL_ASSETS[0]:
+            # the first asset gets 7-11 acquisitions (extra purchases never make a history invalid); rows are renumbered table by table
+            ins = [r for r in rows if r[0] == "IN"]
+            while len(ins) < rng.randint(7, 11):
+                src = rng.choice(ins)
+                extra = ["IN", 0, src[2] + rng.randint(1, 10**6) * 10**6, src[3], "BUY", src[5], P.rprice(rng), max(P.ramt(rng), 2 * 10**6), None, None, None]
+                ins.append(extra)
+                rows.append(extra)
+            rid = 3
+            for tbl in ("IN", "OUT", "INTRA"):
+                for x in rows:
+                    if x[0] == tbl:
+                        x[1] = rid
+                        rid += 1
+                rid += 3
         # amounts that survive the float round trip exactly (<= 1e15 units); prices are re-read through eff()
         assets[a] = rows
         cfee[a] = {}
         for r in rows:
             if prop == "C20":
                 break
-            if r[0] == "IN" and rng.random() < 0.25 and r[7] > 10**6:
+            if r[0] == "IN" and rng.random() < (0.9 if heavy_cfee else 0.25) and r[7] > 10**6:
                 cfee[a][str(r[1])] = rng.choice([1, 10**5, r[7] // 1000 or 1])
                 r[8] = None
         days += [ldate(r[2], r[3]) for r in rows]
@@ -153,6 +189,8 @@ def gen(rng, prop=None):
         fd, td = td, fd
     method = rng.choice([None] + facts["methods"])
     lang = rng.choice([None] + facts["langs"])
+    if forced_lang:
+        lang = forced
     sched = None
     if len(facts["methods"]) > 1 and rng.random() < 0.35:
         method = None
@@ -163,11 +201,15 @@ def gen(rng, prop=None):
                             {"1970": rng.choice(ms), "2019": rng.choice(ms), "2020": rng.choice(ms), "2021": rng.choice(ms), "2023": rng.choice(ms)}])
     case = {"entry": entry, "method": method, "lang": lang, "from": fd.isoformat() if fd else None, "to": td.isoformat() if td else None, "neg": rng.random() < 0.8,
             "only": rng.choice(list(assets)) if rng.random() < 0.15 else None, "sched": sched, "assets": assets, "cfee": cfee, "fault": None, "prefix": rng.choice(["", "x_"])}
+    if forced_lang and lang is not None and rng.random() < 0.6:
+        case["fresh"] = True
     if prop == "C18" and rng.random() < 0.45:
         # failing runs are audited too; the faults that end on the "unexpected error" path or involve the bytes of an input file are favoured
         case["fault"] = rng.choice(FAULTS + ["config-with-bom", "ini-duplicate-option", "input-not-ods"] * 3)
     if prop == "C18" and rng.random() < 0.12:
         case["variant"] = "log-is-a-file"
+    elif prop == "C18" and rng.random() < 0.2:
+        case["variant"] = "report-is-symlink"
     if prop == "C12" and rng.random() < 0.7:
         case["fault"] = rng.choice(FAULTS)
         if case["fault"] == "asset-without-sheet":
@@ -177,7 +219,7 @@ def gen(rng, prop=None):
         case["lang"] = rng.choice([None, "en", "kl", "kl"] if "kl" in facts["langs"] else [None, "en"])
         case["from"] = None          # the oracle's expectation is written for to-date windows (as in the reports stream)
     if prop == "C17":
-        case["variant"] = rng.choice(["hashseed", "hashseed", "stale-output", "single-asset", "single-asset", "repeat", "permuted", "permuted"])
+        case["variant"] = rng.choice(["hashseed", "hashseed", "stale-output", "single-asset", "single-asset", "repeat", "permuted", "permuted"]) if not heavy_cfee else "single-asset"
         if case["variant"] == "single-asset" and len(facts["methods"]) > 1 and rng.random() < 0.7:
             case["method"], case["sched"], case["only"] = rng.choice(["hifo", "lofo", "lifo"]), None, None
     return case
@@ -503,6 +545,10 @@ def _collect_files(case, out, files, names, a2c, r):
 
 
 def run_impl(case, hashseed=None, stale=False):
+    if case.get("fresh") and not stale and case.get("variant") is None:
+        # a real interpreter start: the forked child re-imports the report modules by hand (to rebind gettext), which would hide a
+        # dependence on the import order of the entry point
+        return run_subprocess(case, 0)
     d = os.path.join(SCR, "cli")
     shutil.rmtree(d, ignore_errors=True)
     os.makedirs(d)
@@ -512,10 +558,25 @@ def run_impl(case, hashseed=None, stale=False):
         open(os.path.join(d, "out", "unrelated.txt"), "w").write("keep me")
         m = (case["sched"] and (list(case["sched"].values())[0] if len(case["sched"]) == 1 else "mixed")) or case["method"] or country_facts(case["entry"])["default_method"]
         open(os.path.join(d, "out", f"{case['prefix']}{m}_rp2_full_report.ods"), "w").write("stale garbage")
+    link_target = None
+    if case.get("variant") == "report-is-symlink":
+        # the output directory already holds the name of a report as a symbolic link to a file kept elsewhere: the run may replace the
+        # link, never what it points at
+        os.makedirs(os.path.join(d, "out"), exist_ok=True)
+        os.makedirs(os.path.join(d, "archive"))
+        link_target = os.path.join(d, "archive", "filed_last_year.ods")
+        open(link_target, "w").write("filed report, do not touch")
+        m = (case["sched"] and (list(case["sched"].values())[0] if len(case["sched"]) == 1 else "mixed")) or case["method"] or country_facts(case["entry"])["default_method"]
+        os.symlink(link_target, os.path.join(d, "out", f"{case['prefix']}{m}_rp2_full_report.ods"))
     h0 = (sha(os.path.join(d, "in.ods")), sha(os.path.join(d, "in.ini")))
     argv = argv_of(case, d)
     res = run_child(case, d, argv)
     r = collect(case, d, res)
+    if link_target:
+        m_ = os.path.join(d, "out", f"{case['prefix']}{m}_rp2_full_report.ods")
+        if os.path.islink(m_):          # the run ended before that report was written: the link is the harness's, not an output
+            r["files"] = [f for f in r["files"] if f != os.path.basename(m_)]
+        r["link_target_intact"] = os.path.exists(link_target) and open(link_target, "rb").read() == b"filed report, do not touch"
     r["inputs_unchanged"] = h0 == (sha(os.path.join(d, "in.ods")), sha(os.path.join(d, "in.ini")))
     r["dir"] = d
     if stale:
@@ -727,6 +788,8 @@ def oracle_c18(case, res, guard=True):
                     return f"{e[0]} outside the output and log directories: {p}"
     if res.get("inputs_unchanged") is False:
         return "the input spreadsheet or the configuration file was modified"
+    if res.get("link_target_intact") is False:
+        return "a report name in the output directory was a symbolic link: the file it points at (outside the output directory) was overwritten or removed"
     return None
 
 
